@@ -158,6 +158,9 @@ package core
 //@ extern func github.com/Masterminds/semver/v3.(*Version).LessThan
 //@   requires v != nil && o != nil
 //@   ensures result == verLess(*v, *o)
+//@ extern func github.com/Masterminds/semver/v3.(*Version).GreaterThan
+//@   requires v != nil && o != nil
+//@   ensures result == verLess(*o, *v)
 //@ extern func github.com/Masterminds/semver/v3.(*Version).LessThanEqual
 //@   requires v != nil && o != nil
 //@   ensures result == (verLess(*v, *o) || *v == *o)
